@@ -15,6 +15,9 @@ type sval struct {
 	t    string
 	sort string
 	typ  types.Type
+	// str: for a byte slice returned by a stable pure getter, its (stable,
+	// heap-independent) contents as a byte string.
+	str string
 }
 
 // SpecEnv evaluates contract expressions in a frame.
@@ -29,6 +32,8 @@ type SpecEnv struct {
 	pol   int // +1: positive position of a goal being proved; -1: negative; 0: assumption
 	// entryVars: parameter values at function entry (what names mean inside old(...)).
 	entryVars map[string]sval
+	// cellVars: captured variables (closure free variables): name -> cell address and value type.
+	cellVars map[string]sval
 }
 
 func (f *Frame) specEnv(st, old *State, pkg *ssa.Package) *SpecEnv {
@@ -54,6 +59,16 @@ func (f *Frame) funcEnv(st, old *State) *SpecEnv {
 		env.entryVars[p.Name()] = env.vars[p.Name()]
 	}
 	for _, fv := range f.fn.FreeVars {
+		// a captured variable x is a pointer to its cell: in contracts x means the
+		// variable's current value, &x (spelled addr_x) its cell.
+		if pt, ok := fv.Type().Underlying().(*types.Pointer); ok {
+			env.vars["addr_"+fv.Name()] = env.sv(f.vals[fv], fv.Type())
+			if env.cellVars == nil {
+				env.cellVars = map[string]sval{}
+			}
+			env.cellVars[fv.Name()] = sval{t: f.vals[fv], typ: pt.Elem()}
+			continue
+		}
 		env.vars[fv.Name()] = env.sv(f.vals[fv], fv.Type())
 	}
 	return env
@@ -207,6 +222,10 @@ func (env *SpecEnv) eval(e Expr) (sval, error) {
 		if v, ok := env.vars[x.Name]; ok {
 			return v, nil
 		}
+		if c, ok := env.cellVars[x.Name]; ok {
+			// captured variable: its value in the state being evaluated
+			return env.sv(f.load(env.state(), c.t, c.typ), c.typ), nil
+		}
 		if v, ok := env.pkgMember(env.pkg, x.Name); ok {
 			return v, nil
 		}
@@ -245,10 +264,32 @@ func (env *SpecEnv) eval(e Expr) (sval, error) {
 				saved[qv.Name] = old
 			}
 			name := "q_" + qv.Name
-			env.vars[qv.Name] = sval{t: name, sort: srt}
+			qval := sval{t: name, sort: srt}
+			// Go-typed bound variable (e.g. `forall ss *solicitState`): keep the type
+			// so fields and methods can be selected in the body.
+			if base := strings.TrimLeft(qv.Type, "*"); base != qv.Type && env.pkg != nil {
+				if obj := env.pkg.Pkg.Scope().Lookup(base); obj != nil {
+					if tn, ok := obj.(*types.TypeName); ok {
+						var gt types.Type = tn.Type()
+						for i := 0; i < len(qv.Type)-len(base); i++ {
+							gt = types.NewPointer(gt)
+						}
+						qval.typ = gt
+					}
+				}
+			}
+			env.vars[qv.Name] = qval
 			binders = append(binders, fmt.Sprintf("(%s %s)", name, srt))
 		}
 		body, err := env.evalBool(x.Body)
+		if err == nil && x.Trig != nil {
+			tv, terr := env.eval(x.Trig)
+			if terr != nil {
+				err = terr
+			} else {
+				body = fmt.Sprintf("(! %s :pattern (%s))", body, tv.t)
+			}
+		}
 		for _, qv := range x.Vars {
 			delete(env.vars, qv.Name)
 			if old, ok := saved[qv.Name]; ok {
@@ -300,6 +341,9 @@ func (env *SpecEnv) eval(e Expr) (sval, error) {
 
 // asStr coerces a byte slice or string value to Str.
 func (env *SpecEnv) asStr(v sval) (string, error) {
+	if v.str != "" {
+		return v.str, nil
+	}
 	switch v.sort {
 	case "Str":
 		return v.t, nil
@@ -507,6 +551,14 @@ func (env *SpecEnv) strEq(a, b string) string {
 		return "true"
 	}
 	if env.pol != 1 {
+		return Eq(a, b)
+	}
+	// the extensional route only helps when a side is built from memory or by
+	// slicing/concatenation; between opaque values it only burdens the solver
+	structural := func(t string) bool {
+		return strings.HasPrefix(t, "(content ") || strings.HasPrefix(t, "(ssub ") || strings.HasPrefix(t, "(scat ")
+	}
+	if !structural(a) && !structural(b) {
 		return Eq(a, b)
 	}
 	return fmt.Sprintf("(or (= %s %s) (and (= (slen %s) (slen %s)) (forall ((ei Int)) (! (=> (and (<= 0 ei) (< ei (slen %s))) (= (sat %s ei) (sat %s ei))) :pattern ((sat %s ei)) :pattern ((sat %s ei))))))", a, b, a, b, a, a, b, a, b)
@@ -756,6 +808,73 @@ func (env *SpecEnv) evalCall(x *ECall) (sval, error) {
 				return sval{}, fmt.Errorf("deref of non-pointer %s", v.typ)
 			}
 			return env.sv(f.load(env.state(), v.t, pt.Elem()), pt.Elem()), nil
+		case "dom":
+			// dom(m, k): the bare membership term of key k in map m (for use as a trigger)
+			if len(x.Args) != 2 {
+				return sval{}, fmt.Errorf("dom takes (map, key)")
+			}
+			mv, err := env.eval(x.Args[0])
+			if err != nil {
+				return sval{}, err
+			}
+			kv, err := env.eval(x.Args[1])
+			if err != nil {
+				return sval{}, err
+			}
+			mt, ok := mv.typ.Underlying().(*types.Map)
+			if mv.typ == nil || !ok {
+				return sval{}, fmt.Errorf("dom: first argument is not a map")
+			}
+			d, _ := mapHeaps(f.ctx, mt)
+			return sval{t: fmt.Sprintf("(select (select %s %s) %s)", f.heap(env.state(), d), mv.t, kv.t), sort: "Bool"}, nil
+		case "atlock":
+			// atlock(e): e evaluated in the state right after the most recent Lock
+			// (guarded fields havocked, lock invariant assumed) of this function.
+			if len(x.Args) != 1 {
+				return sval{}, fmt.Errorf("atlock takes one argument")
+			}
+			snap := f.top.lastLockSnap
+			if snap == nil {
+				snap = env.old
+			}
+			saved, savedOld := env.st, env.inOld
+			env.st, env.inOld = snap, false
+			v, err := env.eval(x.Args[0])
+			env.st, env.inOld = saved, savedOld
+			if err != nil {
+				return v, err
+			}
+			if lr := f.top.lastLockReach; lr != "" && lr != "true" {
+				// on a path that never took the lock, atlock(e) is e as it is now
+				cur, err := env.eval(x.Args[0])
+				if err != nil {
+					return cur, err
+				}
+				v.t = Ite(lr, v.t, cur.t)
+			}
+			return v, nil
+		case "held":
+			// held(x.mu): the current goroutine holds mutex field mu of object x
+			if len(x.Args) != 1 {
+				return sval{}, fmt.Errorf("held takes one argument x.mu")
+			}
+			sel, ok := x.Args[0].(*ESel)
+			if !ok {
+				return sval{}, fmt.Errorf("held takes x.mu")
+			}
+			ov, err := env.eval(sel.X)
+			if err != nil {
+				return sval{}, err
+			}
+			nt, ok := derefNamed(ov.typ)
+			if ov.typ == nil || !ok || nt.Obj().Pkg() == nil {
+				return sval{}, fmt.Errorf("held: %s is not a pointer to a named struct", sel.X.exprString())
+			}
+			gd := f.eng.CS.Guards[nt.Obj().Pkg().Path()+"."+nt.Obj().Name()+"."+sel.Name]
+			if gd == nil {
+				return sval{}, fmt.Errorf("held: no guards declaration for %s.%s", nt.Obj().Name(), sel.Name)
+			}
+			return sval{t: fmt.Sprintf("(select %s %s)", f.heap(env.state(), heldHeap(gd)), ov.t), sort: "Bool"}, nil
 		case "sameElems":
 			// sameElems(a, b): slices a and b hold equal elements (same length assumed by the caller)
 			if len(x.Args) != 2 {
@@ -943,7 +1062,11 @@ func (env *SpecEnv) evalCall(x *ECall) (sval, error) {
 			if len(res) != 1 {
 				return sval{}, fmt.Errorf("method %s must have one result to be used in a contract", sel.Name)
 			}
-			return env.sv(res[0], sig.Results().At(0).Type()), nil
+			out := env.sv(res[0], sig.Results().At(0).Type())
+			if isByteSlice(sig.Results().At(0).Type()) && len(args) == 0 {
+				out.str = f.getterBytes(m, recv.t)
+			}
+			return out, nil
 		}
 		// concrete method: inline
 		var pkg *types.Package
